@@ -139,6 +139,10 @@ theorem live_registered_countries :
       "RS", "SI", "SK", "SM", "TL", "TN"].map (fun c => bytes (c ++ ":default"))) := by
   decide +kernel
 
+/-- Only German bank entries name a method: for every other country the hypothesis "no entry
+    of the country names a method" of the theorems above holds for the bundled registry. -/
+theorem live_only_de_names_methods : Gen.countriesWithAlgo = [bytes "DE"] := by decide +kernel
+
 /-- Bosnia: on the live tables, for every registry without method names for BA and every
     16-character alphanumeric BBAN, the national check is the published ISO 7064 rule. -/
 theorem live_bosnia (R : Registry) (hR : ∀ x ∈ R, x.countryCode = bytes "BA" → x.checksumAlgo = none)
